@@ -230,7 +230,10 @@ func (s *memoryStore) RemoveNode(nodeID store.NodeID) error {
 // empty list, if none are available.
 func (s *memoryStore) ActiveHosts(kind string, limit int) ([]store.Node, error) {
 	seenSince := time.Now().Add(-store.ExpireInterval)
-	r := make([]store.Node, 0, limit)
+	// The limit comes from the network: it bounds the result, not the
+	// allocation (a huge limit must not be turned into a huge or invalid
+	// capacity).
+	r := []store.Node{}
 
 	s.mu.Lock()
 	defer s.mu.Unlock()
